@@ -5,6 +5,11 @@ MC   MC_PreprocMacro: frame-stack machine = big-step reference ExpandRef for eve
 GEN  the same universe exported by TLC, rendered, executed by the real preprocessor;
      plus seeded larger programs (more formals, nested brackets/strings in actuals, nesting).
 TV   Preproc_Trace: tokens (after pasting), error variant + payload, define table, origins.
+Byte level: MacroBody (transcription of split_text and the substitution loop = the IEEE reading of the body's lexemes,
+     for every body text over a 9-character alphabet up to the bound; refutation configs for the four repaired
+     defects D9, D23, D24, D26); every body text of the bound and seeded longer ones are expanded by the real
+     preprocessor and each substitution event (hook "subst": stored macro text, bound formals, substituted text)
+     is validated by MacroBody_Trace - as are the events of all the programs above.
 """
 import random, json
 import vlib, pp, ppcheck
@@ -220,6 +225,74 @@ def uses_bqs_with_complex_actual(items):
     return False
 
 
+def chars(s):
+    """byte view as a list of one-character strings; bytes >= 128 all become '~' (one class for the machine)"""
+    return [chr(b) if b < 128 else "~" for b in s.encode()]
+
+
+BODY_PIECES = ["x", "x$", "x$y", "y$x", "$x", "xy", "x1", "1x", "_x", "y", " ", "  ", "\t", "+", "(", ")", ",", ";", "``", "`\"", "`\\`\"", "`", "\"", "\"x\"", "\"a\\\"x\"",
+               "\"x`y\"", "\\\n", "\\\r\n", "\\", "\\x ", "\\y+ ", "//", "// x", "/", "$", "'", "8'hx", "é", "[x]", "{x,y}", "x.x", "`y", "`N", "#"]
+
+
+def seeded_body(rng):
+    return "".join(rng.choice(BODY_PIECES) for _ in range(rng.randint(1, 14)))
+
+
+def macro_body_part(v, quick, rng, extra_hooks):
+    """MacroBody: the substituted text of a body at byte level (transcription of split_text = IEEE reading, for every
+    body over the alphabet; the real substitution events against the reading)"""
+    tag = "quick" if quick else "thorough"
+    r = vlib.tlc_model_check("MC_MacroBody.tla", "MC_MacroBody_%s.cfg" % tag, workers=8, extra=["-coverage", "1"])
+    v.add_mc("MC_MacroBody_" + tag, r, "MachineEqualsRef, PlainCopied for every body text of the bound")
+    if not quick:
+        r = vlib.tlc_model_check("MC_MacroBody.tla", "MC_MacroBody_thorough_wide.cfg", workers=8)
+        v.add_mc("MC_MacroBody_thorough_wide", r, "MachineEqualsRef with CR and a digit in the alphabet")
+    for dev in ("dollar", "leadbs", "noesc", "cmtglue"):
+        r = vlib.tlc_model_check("MC_MacroBody.tla", "MC_MacroBody_refute_%s.cfg" % dev, workers=4, expect_violation=True)
+        v.add_mc("MC_MacroBody_refute_" + dev, r, "refutation: the behaviour before the repair contradicts the reading")
+    cov, r = vlib.tlc_export("MC_MacroBody.tla", "MC_MacroBody_cover%d.cfg" % (5 if quick else 6), tag="TRANSITIONS", workers=1)
+    v.add_mc("MC_MacroBody_cover", r, "distinct <<control state, branch>> pairs of the machine exercised at the bound: %s" % cov)
+    v.cov["macro_body_machine_transitions"] = cov
+    ex, r = vlib.tlc_export("MC_MacroBody.tla", "MC_MacroBody_gen%d.cfg" % (4 if quick else 5), workers=4)
+    v.add_mc("MC_MacroBody_gen", r, "GEN export: %d body texts" % len(ex))
+    bodies = ["".join(x) for x in ex]
+    nex = len(bodies)
+    bodies += [seeded_body(rng) for _ in range(4000 if quick else 60000)]
+    hc = []
+    for i, b in enumerate(bodies):
+        if i % 3 == 0:
+            src = "`define M(x, x$=C) %s\n`M(AB)\n" % b
+        elif i % 3 == 1:
+            src = "`define M(x,x$)%s\n`M( AB , C )\n" % (b if b[:1] in " \t\\" else " " + b)
+        else:
+            src = "`define M(x$ = C, x = AB) %s\n`M(,)\n" % b
+        hc.append({"id": i, "calls": [{"fn": "preprocess_str", "path": "t.sv", "text": src, "hooks": ["subst"]}]})
+    res = vlib.run_cases(hc, tag="c05b")
+    recs, by = [], {}
+    for c, rr in zip(hc, res):
+        for k, h in enumerate(rr["results"][0].get("hooks") or []):
+            if h["k"] != "subst":
+                continue
+            st = h["s"]
+            rid = "b%d.%d" % (c["id"], k)
+            recs.append({"id": rid, "kind": "subst", "body": chars(st[0]), "replaced": chars(st[1]),
+                         "formals": [[chars(st[j]), chars(st[j + 1])] for j in range(2, len(st), 2)]})
+            by[rid] = {"source": c["calls"][0]["text"], "body": st[0], "replaced": st[1], "formals": st[2:]}
+    for rid, h in extra_hooks:
+        st = h["s"]
+        recs.append({"id": rid, "kind": "subst", "body": chars(st[0]), "replaced": chars(st[1]),
+                     "formals": [[chars(st[j]), chars(st[j + 1])] for j in range(2, len(st), 2)]})
+        by[rid] = {"body": st[0], "replaced": st[1], "formals": st[2:]}
+    bad, stats = vlib.tlc_validate("MacroBody_Trace.tla", "MacroBody_Trace.cfg", recs, tag="c05b")
+    v.add_tv("MacroBody_Trace", stats, len(recs))
+    drift = [k for k in bad if k.startswith("DRIFT")]
+    v.cov["macro_body_events"] = len(recs)
+    v.cov["macro_body_exhaustive_texts"] = nex
+    v.cov["macro_body_events_from_programs"] = len(extra_hooks)
+    for rid, reasons in bad.items():
+        v.violation("macro text %r with %r: %s" % (by[rid]["body"][:200], by[rid]["formals"], "; ".join(reasons)[:500]), by[rid])
+
+
 def run(tier, seed):
     v = vlib.Verdict("C05", tier, seed)
     vlib.build_harness()
@@ -247,7 +320,12 @@ def run(tier, seed):
             cases[-1]["nl"] = "\r\n"          # CRLF line ends
         by_id[str(nid)] = {"seeded": i}
     vlib.log("C05: %d cases (%d exported by TLC, %d seeded)" % (len(cases), len(ex), nrand))
-    records, hcases, results = ppcheck.build_run_records(cases, "c05", check_origins=False)
+    records, hcases, results = ppcheck.build_run_records(cases, "c05", check_origins=False, hooks=["subst"])
+    extra_hooks = []
+    for c, rr in zip(cases, results):
+        for k, h in enumerate(rr["results"][0].get("hooks") or []):
+            if h["k"] == "subst":
+                extra_hooks.append(("p%s.%d" % (c["id"], k), h))
     for c, h in zip(cases, hcases):
         by_id[str(c["id"])]["source"] = h["files"]["top.sv"]
     v.cov["evaluations"] = len(cases)
@@ -263,6 +341,7 @@ def run(tier, seed):
                         for c, r in list(zip(cases, records))[::step][:4]]
     ppcheck.validate_with_deviations(v, "Preproc_Trace", records, by_id, "c05",
                                      lambda rid: "source %r" % by_id[rid]["source"][:300])
+    macro_body_part(v, quick, rng, extra_hooks)
     v.assumptions = ["renderer/tokeniser of lib/pp.py", "TLC, Json module",
                      "generator restrictions of DESIGN.md Appendix A.3-A.5 (no surplus actuals, `` only between plain tokens, plain-token actuals inside `\"...`\")"]
     return v.finish(rule="TLC-exported universe of MC_PreprocMacro (formal lists x bodies<=%d x argument lists x redefinition) plus %d seeded "
